@@ -97,3 +97,158 @@ theorem increment_by_one_overshoots :
     p ≤ k ∧ k < (incrementByOne p).2 ∧ ¬ p <+: k := by decide
 
 end Bytes
+
+/-! ## fixed-width ids: `increment_by_one` is the successor among strings of the same length -/
+
+namespace Bytes
+
+theorem u8_le_255 (c : UInt8) : c ≤ 255 := by
+  rw [UInt8.le_iff_toNat_le]; have := c.toNat_lt; simp; omega
+
+theorem u8_zero_le (c : UInt8) : (0 : UInt8) ≤ c := by
+  rw [UInt8.le_iff_toNat_le]; simp
+
+theorem u8_lt_or_eq_of_le {a b : UInt8} (h : a ≤ b) : a < b ∨ a = b := by
+  rw [UInt8.le_iff_toNat_le] at h
+  rcases Nat.lt_or_eq_of_le h with h | h
+  · exact Or.inl (UInt8.lt_iff_toNat_lt.mpr h)
+  · exact Or.inr (UInt8.toNat_inj.mp h)
+
+/-- all-zero strings are minimal among strings of the same length -/
+theorem zeros_le (n : Nat) (x : Bytes) (h : x.length = n) : List.replicate n (0 : UInt8) ≤ x := by
+  induction n generalizing x with
+  | zero => exact List.nil_le _
+  | succ n ih =>
+    cases x with
+    | nil => simp at h
+    | cons c xs =>
+      simp only [List.replicate_succ]
+      rw [List.cons_le_cons_iff]
+      rcases u8_lt_or_eq_of_le (u8_zero_le c) with h' | h'
+      · exact Or.inl h'
+      · exact Or.inr ⟨h', ih xs (by simpa using h)⟩
+
+/-- all-0xFF strings are maximal among strings of the same length -/
+theorem le_ffs (n : Nat) (x : Bytes) (h : x.length = n) : x ≤ List.replicate n (255 : UInt8) := by
+  induction n generalizing x with
+  | zero => cases x with
+    | nil => exact List.le_refl _
+    | cons c xs => simp at h
+  | succ n ih =>
+    cases x with
+    | nil => simp at h
+    | cons c xs =>
+      simp only [List.replicate_succ]
+      rw [List.cons_le_cons_iff]
+      rcases u8_lt_or_eq_of_le (u8_le_255 c) with h' | h'
+      · exact Or.inl h'
+      · exact Or.inr ⟨h', ih xs (by simpa using h)⟩
+
+/-- `increment_by_one` fails exactly on all-0xFF strings (and leaves zeros behind) -/
+theorem incrementByOne_false (a r : Bytes) (h : incrementByOne a = (false, r)) :
+    a = List.replicate a.length 255 ∧ r = List.replicate a.length 0 := by
+  induction a generalizing r with
+  | nil => simp [incrementByOne] at h; simp [h]
+  | cons b rest ih =>
+    unfold incrementByOne at h
+    rcases hr : incrementByOne rest with ⟨ok, r'⟩
+    rw [hr] at h
+    cases ok with
+    | true => simp at h
+    | false =>
+      simp only at h
+      by_cases hb : b = 255
+      · simp only [hb, if_true, Prod.mk.injEq, true_and] at h
+        obtain ⟨h1, h2⟩ := ih r' hr
+        subst h
+        simp only [List.length_cons, List.replicate_succ]
+        exact ⟨by rw [hb, ← h1], by rw [← h2]⟩
+      · simp [hb] at h
+
+theorem incrementByOne_length (a : Bytes) : (incrementByOne a).2.length = a.length := by
+  induction a with
+  | nil => simp [incrementByOne]
+  | cons b rest ih =>
+    unfold incrementByOne
+    rcases hr : incrementByOne rest with ⟨ok, r'⟩
+    rw [hr] at ih
+    cases ok <;> simp only
+    · split <;> simp_all
+    · simp_all
+
+/-- `increment_by_one` yields the successor: it is greater, and no string of the same length lies
+strictly in between -/
+theorem incrementByOne_succ (a a' : Bytes) (h : incrementByOne a = (true, a')) :
+    a < a' ∧ ∀ x : Bytes, x.length = a.length → a < x → a' ≤ x := by
+  induction a generalizing a' with
+  | nil => simp [incrementByOne] at h
+  | cons b rest ih =>
+    unfold incrementByOne at h
+    rcases hr : incrementByOne rest with ⟨ok, r'⟩
+    rw [hr] at h
+    cases ok with
+    | true =>
+      simp only [Prod.mk.injEq, true_and] at h
+      subst h
+      obtain ⟨h1, h2⟩ := ih r' hr
+      refine ⟨List.cons_lt_cons_iff.mpr (Or.inr ⟨rfl, h1⟩), ?_⟩
+      intro x hx hlt
+      cases x with
+      | nil => simp at hx
+      | cons c xs =>
+        rw [List.cons_le_cons_iff]
+        rcases List.cons_lt_cons_iff.mp hlt with h | ⟨h, h'⟩
+        · exact Or.inl h
+        · exact Or.inr ⟨h, h2 xs (by simpa using hx) h'⟩
+    | false =>
+      obtain ⟨hrest, hr'⟩ := incrementByOne_false rest r' hr
+      by_cases hb : b = 255
+      · simp [hb] at h
+      · simp only [hb, if_false, Prod.mk.injEq, true_and] at h
+        subst h
+        have hbb : b < b + 1 := (u8_lt_succ_iff hb).mpr (UInt8.le_refl _) |> fun h => by
+          rcases u8_lt_or_eq_of_le ((u8_lt_succ_iff hb).mp h) with h' | h'
+          · exact absurd h' (UInt8.lt_irrefl _)
+          · exact h
+        refine ⟨List.cons_lt_cons_iff.mpr (Or.inl hbb), ?_⟩
+        intro x hx hlt
+        cases x with
+        | nil => simp at hx
+        | cons c xs =>
+          have hxs : xs.length = rest.length := by simpa using hx
+          rw [List.cons_le_cons_iff]
+          rcases List.cons_lt_cons_iff.mp hlt with h | ⟨h, h'⟩
+          · -- b < c, so b + 1 ≤ c
+            have : b + 1 ≤ c := by
+              rw [UInt8.le_iff_toNat_le, UInt8.toNat_add]
+              rw [UInt8.lt_iff_toNat_lt] at h
+              have := c.toNat_lt
+              simp; omega
+            rcases u8_lt_or_eq_of_le this with h'' | h''
+            · exact Or.inl h''
+            · refine Or.inr ⟨h'', ?_⟩
+              rw [hr']
+              exact zeros_le _ xs hxs
+          · -- rest is all 0xFF: nothing of the same length is greater
+            have := le_ffs rest.length xs hxs
+            rw [← hrest] at this
+            exact absurd h' (List.not_lt.mpr this)
+
+/-- a string of the same length that is neither below `ns` nor at or above its successor is `ns` -/
+theorem squeeze (ns x : Bytes) (hx : x.length = ns.length)
+    (hlo : ¬ x < ns) (hhi : match incrementByOne ns with | (true, e) => x < e | (false, _) => True) :
+    x = ns := by
+  rcases h : incrementByOne ns with ⟨ok, e⟩
+  rw [h] at hhi
+  cases ok with
+  | true =>
+    obtain ⟨_, hsucc⟩ := incrementByOne_succ ns e h
+    by_cases hlt : ns < x
+    · exact absurd hhi (List.not_lt.mpr (hsucc x hx hlt))
+    · exact List.le_antisymm (List.not_lt.mp hlt) (List.not_lt.mp hlo)
+  | false =>
+    obtain ⟨hff, _⟩ := incrementByOne_false ns e h
+    have : x ≤ ns := by rw [hff, ← hx]; exact le_ffs _ x rfl
+    exact List.le_antisymm this (List.not_lt.mp hlo)
+
+end Bytes
